@@ -151,7 +151,12 @@ func c10Cases(tier string) []*space.Case {
 				if s, err := dsl.BuildSpec(f, c, r); err == nil {
 					for _, a := range s.Attrs {
 						if a.Msg != nil && len(a.Embed) == 0 {
-							c.Injected[a.Path] = combos[n%len(combos) : n%len(combos)+1]
+							inj := combos[n%len(combos)]
+							if inj.Name == "id" {
+								// (a nested message may have an attribute "id" of its own)
+								inj.Name = "inj_id"
+							}
+							c.Injected[a.Path] = []dsl.Injected{inj}
 							n++
 						}
 					}
